@@ -1049,6 +1049,15 @@ impl BackupManager {
         let mut deleted = Vec::new();
         let min_age_seconds = policy.min_age_days * day;
 
+        // Backups younger than the minimum age are retained too, and every retained backup
+        // needs its whole parent chain to stay restorable.
+        for backup in &backups {
+            if now.saturating_sub(backup.timestamp) < min_age_seconds {
+                to_keep.insert(backup.id);
+            }
+        }
+        close_keep_set_under_parents(&mut to_keep, &backups);
+
         for backup in &backups {
             if !to_keep.contains(&backup.id) {
                 let age = now.saturating_sub(backup.timestamp);
@@ -1083,6 +1092,29 @@ impl BackupManager {
         info!("Pruned {} backups", deleted.len());
 
         Ok(deleted)
+    }
+}
+
+/// Extend `keep` until it is closed under `parent_id`: an incremental backup can only be
+/// restored while its parent (and the parent's parent, up to the full backup) still exists.
+fn close_keep_set_under_parents(
+    keep: &mut std::collections::HashSet<Uuid>,
+    backups: &[BackupMetadata],
+) {
+    loop {
+        let mut changed = false;
+        for backup in backups {
+            if keep.contains(&backup.id) {
+                if let Some(parent_id) = backup.parent_id {
+                    if keep.insert(parent_id) {
+                        changed = true;
+                    }
+                }
+            }
+        }
+        if !changed {
+            break;
+        }
     }
 }
 
